@@ -1,4 +1,4 @@
-(* regenerated on every run by harness/cmd/translate (utswrites) from core/task/manager.go
+(* regenerated on every run by harness/cmd/translate (utswrites) from core/task
    updateTaskStatus, case TASK_RUNNING: (field written, write guarded by "the update carries that id");
    fields: 1 status, 2 agentId, 3 executorId, 4 parent, 5 state, 9 other *)
 From Coq Require Import List NArith.
